@@ -133,7 +133,7 @@ def shapes(rng, nparts, complex_idx, ctx):
 
 def wsse_configs(rng, ctx):
     from suds.wsse import Security, UsernameToken, Timestamp
-    cfgs = [None]
+    cfgs = [None, (Security(), [])]          # (a configured Security object without tokens is a Security header all the same)
     for _ in range(ctx.pick(6, 40)):
         s = Security()
         spec = []
@@ -440,11 +440,36 @@ def zoned_timestamps(ctx):
     """Created / Expires carry the instant that was configured, also for zones whose offset depends on the date."""
     from suds.wsse import Security, UsernameToken, Timestamp
     w = make_wsdl(0, None)
-    for dt, text in ((datetime.datetime(2001, 7, 3, 4, 5, 6, tzinfo=DstZone()), "2001-07-03T04:05:06+02:00"),
-                     (datetime.datetime(2001, 1, 3, 4, 5, 6, tzinfo=DstZone()), "2001-01-03T04:05:06+01:00"),
-                     (datetime.datetime(2001, 1, 3, 4, 5, 6, tzinfo=datetime.timezone(datetime.timedelta(hours=-5))),
-                      "2001-01-03T04:05:06-05:00")):
-        meta = {"stream": "zoned-timestamps", "created": dt.isoformat()}
+    # (the library's own zone object for "the local time of this machine", in a process whose local time has daylight
+    # saving: TZ is set for the duration of this stream and restored)
+    import os
+    import time
+    from suds.sax.date import LocalTimezone
+    old_tz = os.environ.get("TZ")
+    os.environ["TZ"] = "CET-1CEST,M3.5.0,M10.5.0/3"
+    time.tzset()
+    try:
+        local = [(datetime.datetime(2001, 7, 3, 4, 5, 6, tzinfo=LocalTimezone()), "2001-07-03T04:05:06+02:00"),
+                 (datetime.datetime(2001, 1, 3, 4, 5, 6, tzinfo=LocalTimezone()), "2001-01-03T04:05:06+01:00"),
+                 (datetime.datetime(2001, 10, 28, 12, 0, 0, tzinfo=LocalTimezone()), "2001-10-28T12:00:00+01:00"),
+                 (datetime.datetime(2001, 3, 25, 12, 0, 0, tzinfo=LocalTimezone()), "2001-03-25T12:00:00+02:00")]
+        _zoned(ctx, w, local, "LocalTimezone under TZ=CET/CEST")
+    finally:
+        if old_tz is None:
+            os.environ.pop("TZ", None)
+        else:
+            os.environ["TZ"] = old_tz
+        time.tzset()
+    _zoned(ctx, w, ((datetime.datetime(2001, 7, 3, 4, 5, 6, tzinfo=DstZone()), "2001-07-03T04:05:06+02:00"),
+                    (datetime.datetime(2001, 1, 3, 4, 5, 6, tzinfo=DstZone()), "2001-01-03T04:05:06+01:00"),
+                    (datetime.datetime(2001, 1, 3, 4, 5, 6, tzinfo=datetime.timezone(datetime.timedelta(hours=-5))),
+                     "2001-01-03T04:05:06-05:00")), "tzinfo objects")
+
+
+def _zoned(ctx, w, cases, label):
+    from suds.wsse import Security, UsernameToken, Timestamp
+    for dt, text in cases:
+        meta = {"stream": "zoned-timestamps", "zone": label, "created": dt.isoformat()}
         ctx.case(common.canon(meta), True)
         s = Security()
         t = UsernameToken("u", "p")
